@@ -69,7 +69,7 @@ def contains_block(st):
     return bool(found)
 
 
-def localize(body, flag):
+def localize(body, flag, split_macros=False):
     """Switch escaping on LOCALLY: wrap runs of statements in {% autoescape flag %}.  A block is
     never put inside an autoescape block (blocks inside autoescape blocks are a recorded C15
     finding); block bodies are wrapped from the inside instead."""
@@ -87,18 +87,23 @@ def localize(body, flag):
             out.append(st)
         elif k == "block":
             flush()
-            out.append(["block", st[1], localize(st[2], flag), st[3], st[4]])
+            out.append(["block", st[1], localize(st[2], flag, split_macros), st[3], st[4]])
+        elif k == "macro" and split_macros:
+            # an autoescape block is a scope of its own: a macro defined inside one run would be
+            # invisible in the next; keep the definition outside, switch escaping on in its body
+            flush()
+            out.append(["macro", st[1], st[2], localize(st[3], flag, split_macros)])
         elif contains_block(st):
             flush()
             st = list(st)
             if k == "if":
-                st[1] = [[c, localize(b, flag)] for c, b in st[1]]
-                st[2] = None if st[2] is None else localize(st[2], flag)
+                st[1] = [[c, localize(b, flag, split_macros)] for c, b in st[1]]
+                st[2] = None if st[2] is None else localize(st[2], flag, split_macros)
             elif k == "for":
-                st[3] = localize(st[3], flag)
-                st[4] = None if st[4] is None else localize(st[4], flag)
+                st[3] = localize(st[3], flag, split_macros)
+                st[4] = None if st[4] is None else localize(st[4], flag, split_macros)
             elif k == "with":
-                st[2] = localize(st[2], flag)
+                st[2] = localize(st[2], flag, split_macros)
             out.append(st)
         else:
             run.append(st)
@@ -110,7 +115,7 @@ def render_local(case, runtime_flag, is_async):
     """Environment autoescape OFF, escaping switched on inside the templates."""
     flag = ["name", "aeflag"] if runtime_flag else ["const", True]
     c2 = dict(case)
-    c2["asts"] = {n: localize(b, flag) for n, b in case["asts"].items()}
+    c2["asts"] = {n: localize(b, flag, case["kind"] == "inherit") for n, b in case["asts"].items()}
     env = corpus.make_env(c2, autoescape=False, enable_async=is_async)
 
     def f():
